@@ -2,12 +2,15 @@
 use serde_json::Value;
 
 pub mod util;
+pub mod gen;
+pub mod c01;
 pub mod c05;
 pub mod c07;
 pub mod c09;
 
 pub fn run(id: &str, tier: &str) -> i32 {
     match id {
+        "C01" => c01::run(tier),
         "C05" => c05::run(tier),
         "C07" => c07::run(tier),
         "C09" => c09::run(tier),
@@ -29,6 +32,7 @@ pub fn replay(id: &str, path: &str) -> i32 {
     };
     let case = v.get("case").cloned().unwrap_or(Value::Null);
     let msgs: Vec<String> = match id {
+        "C01" => c01::replay(&case),
         "C05" => c05::replay(&case),
         "C07" => c07::replay(&case),
         "C09" => c09::replay(&case),
